@@ -188,6 +188,10 @@ class LowRankInitialize(Initialize):
         if self.partition is None:
             self.partition = _default_partition(self.num_qubits)
 
+        # `partition` is a set of qubit indices: the Schmidt decomposition is taken across
+        # the sorted subset, so the isometries must be placed in the same order.
+        self.partition = sorted(self.partition)
+
         complement = sorted(set(range(self.num_qubits)).difference(set(self.partition)))
 
         circuit = QuantumCircuit(self.num_qubits)
